@@ -24,18 +24,20 @@ type ckind int
 const (
 	cUnknown ckind = iota
 	cConst
-	cDyn    // the abstract argument: a value of dynamic type *ast.<typ> with some known fields
-	cField  // address of a field of a cDyn
-	cStr    // a string built from constant parts and unknown parts
-	cTuple  // multi-value
-	cMap    // a constant package-level table
-	cNilPtr // typed nil
-	cRef    // pointer to a cell (local variable, global)
-	cArr    // pointer to an array
-	cElem   // pointer to an element of an array
-	cSlice  // slice of an array
-	cMapV   // a map built during the interpretation
-	cZero   // zero value of a struct type (struct{}{})
+	cDyn     // the abstract argument: a value of dynamic type *ast.<typ> with some known fields
+	cField   // address of a field of a cDyn
+	cStr     // a string built from constant parts and unknown parts
+	cTuple   // multi-value
+	cMap     // a constant package-level table
+	cNilPtr  // typed nil
+	cRef     // pointer to a cell (local variable, global)
+	cArr     // pointer to an array
+	cElem    // pointer to an element of an array
+	cSlice   // slice of an array
+	cMapV    // a map built during the interpretation
+	cZero    // zero value of a struct type (struct{}{})
+	cClosure // a function value made here: the function and the values bound to its free variables
+	cOracle  // a function value supplied by the rule that asks (a callback whose answers it chooses)
 )
 
 type ccell struct{ v cval }
@@ -60,6 +62,8 @@ type cval struct {
 	idx    int             // cElem
 	lo, hi int             // cSlice
 	mv     *cmapv          // cMapV
+	fn     *ssa.Function   // cClosure
+	binds  []cval          // cClosure
 }
 
 func (v cval) String() string {
@@ -241,6 +245,8 @@ type concrOutcome struct {
 }
 
 type concr struct {
+	oracle      func(args []cval) (cval, bool)                       // answers of a cOracle function value
+	intercept   func(callee *ssa.Function, args []cval) (cval, bool) // calls the asking rule takes over (not followed)
 	w           *World
 	steps       int
 	globals     map[*ssa.Global]*ccell // package-level variables written during the interpretation (package initialisers)
@@ -606,6 +612,48 @@ func (ci *concr) runB(fn *ssa.Function, args []cval, bindings []cval, depth int)
 					continue
 				}
 				callee := x.Call.StaticCallee()
+				if callee != nil && ci.intercept != nil && !x.Call.IsInvoke() {
+					var as []cval
+					for _, a := range x.Call.Args {
+						as = append(as, get(a))
+					}
+					if res, taken := ci.intercept(callee, as); taken {
+						env[x] = res
+						continue
+					}
+				}
+				if callee == nil && !x.Call.IsInvoke() {
+					// a function value: one made during the interpretation is followed, one supplied by the rule answers as told
+					fv := get(x.Call.Value)
+					var as []cval
+					for _, a := range x.Call.Args {
+						as = append(as, get(a))
+					}
+					switch fv.kind {
+					case cClosure:
+						out := ci.runB(fv.fn, as, fv.binds, depth+1)
+						switch out.status {
+						case "panic":
+							return out
+						case "unknown":
+							return out
+						}
+						if len(out.vals) == 1 {
+							env[x] = out.vals[0]
+						} else {
+							env[x] = cval{kind: cTuple, tuple: out.vals}
+						}
+						continue
+					case cOracle:
+						if ci.oracle != nil {
+							if res, ok := ci.oracle(as); ok {
+								env[x] = res
+								continue
+							}
+						}
+						return concrOutcome{status: "unknown", why: "call of a supplied function value that has no answer at " + ci.w.pos(x.Pos())}
+					}
+				}
 				if callee != nil && callee.Blocks != nil && corePkg(fnPkgPath(callee)) && !x.Call.IsInvoke() {
 					var as []cval
 					for _, a := range x.Call.Args {
@@ -802,6 +850,12 @@ func (ci *concr) runB(fn *ssa.Function, args []cval, bindings []cval, depth int)
 					m.mv.keys = append(m.mv.keys, k)
 				}
 				m.mv.e[constKey(k.c)] = get(x.Value)
+			case *ssa.MakeClosure:
+				cl := cval{kind: cClosure, fn: x.Fn.(*ssa.Function)}
+				for _, bv := range x.Bindings {
+					cl.binds = append(cl.binds, get(bv))
+				}
+				env[x] = cl
 			case *ssa.DebugRef:
 			case *ssa.If:
 				c := get(x.Cond)
